@@ -201,47 +201,58 @@ def run_binding(ctx, CSs, Ks, mth):
             vnew = K + 1
             bdir0 = os.path.join(base, "cs%d_base%d" % (cs, K))
             shutil.copytree(live, bdir0)
-            root = os.path.join(base, "cs%d_run%d" % (cs, K))
-            shutil.copytree(bdir0, root)
-            st = os.path.join(ctx.work, "strace_%d_%d.txt" % (cs, K))
-            try:
-                cd = update(root, vnew, cs, strace_out=st)
-            except Exception as e:
-                ctx.broken("straced update failed: %s" % e); return
-            cachedir_rel = os.path.relpath(cd, root)
-            try:
-                ops = parse_strace(st, cd)
-            except ValueError as e:
-                ctx.broken("cannot interpret the write programme: %s" % e); return
-            if not any(o[0] == "write" for o in ops):
-                ctx.broken("strace recorded no write into the cache directory (cs=%d K=%d)" % (cs, K)); return
-            # initial image from the base directory
-            bdir = os.path.join(bdir0, cachedir_rel)
-            img = {}
-            if os.path.isdir(bdir):
-                for f in os.listdir(bdir):
-                    img[f] = open(os.path.join(bdir, f), "rb").read()
-            # final image -> final names
-            fin = dict(img)
-            for o in ops:
-                if o[0] == "create":
-                    if o[2] or o[1] not in fin:
-                        fin[o[1]] = b""
-                elif o[0] == "write":
-                    fin[o[1]] = fin.get(o[1], b"") + o[2]
-                elif o[0] == "rename":
-                    fin[o[2]] = fin.pop(o[1])
-                elif o[0] == "unlink":
-                    fin.pop(o[1], None)
-            # sanity: the simulated final image must equal the real directory after the update
-            real = {f: open(os.path.join(cd, f), "rb").read() for f in os.listdir(cd)}
-            if real != fin:
-                diff = [(n, len(real.get(n, b"")) if n in real else None, len(fin.get(n, b"")) if n in fin else None)
+            # record the write programme; the recording is checked for fidelity (replaying it must reproduce the real final
+            # directory) and re-recorded once if strace's record does not (seen once under heavy machine load)
+            rec = None
+            for attempt in (0, 1):
+                root = os.path.join(base, "cs%d_run%d_%d" % (cs, K, attempt))
+                shutil.copytree(bdir0, root)
+                st = os.path.join(ctx.work, "strace_%d_%d_%d.txt" % (cs, K, attempt))
+                try:
+                    cd = update(root, vnew, cs, strace_out=st)
+                except Exception as e:
+                    ctx.broken("straced update failed: %s" % e); return
+                cachedir_rel = os.path.relpath(cd, root)
+                try:
+                    ops = parse_strace(st, cd)
+                except ValueError as e:
+                    ctx.broken("cannot interpret the write programme: %s" % e); return
+                if not any(o[0] == "write" for o in ops):
+                    ctx.broken("strace recorded no write into the cache directory (cs=%d K=%d)" % (cs, K)); return
+                # initial image from the base directory
+                bdir = os.path.join(bdir0, cachedir_rel)
+                img = {}
+                if os.path.isdir(bdir):
+                    for f in os.listdir(bdir):
+                        img[f] = open(os.path.join(bdir, f), "rb").read()
+                # final image -> final names
+                fin = dict(img)
+                for o in ops:
+                    if o[0] == "create":
+                        if o[2] or o[1] not in fin:
+                            fin[o[1]] = b""
+                    elif o[0] == "write":
+                        fin[o[1]] = fin.get(o[1], b"") + o[2]
+                    elif o[0] == "rename":
+                        fin[o[2]] = fin.pop(o[1])
+                    elif o[0] == "unlink":
+                        fin.pop(o[1], None)
+                # sanity: the simulated final image must equal the real directory after the update
+                real = {f: open(os.path.join(cd, f), "rb").read() for f in os.listdir(cd)}
+                if real == fin:
+                    rec = (ops, img, fin, cachedir_rel)
+                    break
+                diff = [(n, len(real[n]) if n in real else None, len(fin[n]) if n in fin else None)
                         for n in sorted(set(real) | set(fin)) if real.get(n) != fin.get(n)]
-                ctx.save_text("strace_mismatch_cs%d_K%d.txt" % (cs, K), open(st, errors="replace").read()[-200000:])
-                ctx.broken("replaying the recorded programme does not reproduce the real directory (cs=%d K=%d): "
-                           "(name, real length, replayed length) = %s; programme %s" %
-                           (cs, K, diff, [(o[0], o[1], len(o[2]) if o[0] == "write" else None) for o in ops])); return
+                why = ("replaying the recorded programme does not reproduce the real directory (cs=%d K=%d attempt %d): "
+                       "(name, real length, replayed length) = %s; programme %s" %
+                       (cs, K, attempt, diff, [(o[0], o[1], len(o[2]) if o[0] == "write" else None) for o in ops]))
+                ctx.log("RECORDING MISMATCH: " + why)
+                ctx.save_text("strace_mismatch_cs%d_K%d_%d.txt" % (cs, K, attempt), open(st, errors="replace").read()[-300000:])
+                time.sleep(1.1)
+            if rec is None:
+                ctx.broken(why); return
+            ops, img, fin, cachedir_rel = rec
             finals = sorted({n for n, d in img.items() if is_full(d)} | {n for n, d in fin.items() if is_full(d)})
             names = sorted(set(img) | set(fin) | {o[1] for o in ops} | {o[2] for o in ops if o[0] == "rename"})
             events.append(dict(ev="Reset", K=K, cs=cs, vnew=vnew, full=[len(payload[v]) for v in sorted(payload)], names=names,
